@@ -2,7 +2,8 @@ SPECIFICATION TSpec
 CONSTANTS
   KeyByOpts = FALSE
   Kinds = {"good", "noname", "badlabel", "badglyph", "compressed", "awami", "badsilf", "nocmap", "nogloc", "name1", "badfeat", "badfeat2", "badsill", "underflow", "emptyname", "emptyglyf"}
-  Srcs = {"ops", "file", "opsnr"}
+  OptSet = {0, 1, 2, 3, 4, 5, 6, 7}
+  Srcs = {"ops", "file", "opsnr", "opsc"}
   Texts = {0, 1, 2, 3, 4, 5, 6, 7}
   ClientOps = {"label", "face_query", "featval", "destroy_fval", "make_font", "destroy_font", "make_seg", "shape", "query_seg", "justify", "destroy_seg"}
   MaxOps = 1000
